@@ -27,11 +27,21 @@ def _method(prog: Program, cls: str, name: str) -> FuncRef:
     return m[name]
 
 
+_COL: list = []
+
+
 def _single_return(ft, ref: FuncRef) -> Term:
+    """The function's return term; every additional (earlier) return is reported: these functions are one closed formula."""
     rets = list(ft.of_kind("return"))
-    if len(rets) != 1:
+    if not rets:
+        raise AnalysisError(f"{ref.short}: no return")
+    if len(rets) > 1 and _COL:
+        for r in rets[:-1]:
+            _COL[-1].check(False, ref.where(r.node), ref.short, f"{ref.node.name} is one formula for every state (extra return of {short(r.value, 40)})",
+                           construct=f"extra-return:{ref.node.name}", necessity="a shortcut return changes what the environment reports in the states that take it")
+    elif len(rets) > 1:
         raise AnalysisError(f"{ref.short}: expected a single return, found {len(rets)}")
-    return rets[0].value
+    return rets[-1].value
 
 
 # --------------------------------------------------------------------------------------
@@ -39,6 +49,7 @@ def _single_return(ft, ref: FuncRef) -> Term:
 # --------------------------------------------------------------------------------------
 
 def rule_c09_typestate(prog: Program, col: Collector) -> None:
+    _COL.append(col)
     col.rule("T1", "recompute-before-observe on ICG_Gym.reset/step/unstep: no gap/reward/bound read between a knowledge mutation and compute_bounds(); transitions exit with fresh bounds", 6)
     t1 = T1(prog)
     for name in ("reset", "step", "unstep"):
@@ -55,6 +66,7 @@ def _chosen(ft, ref: FuncRef, action_param: str) -> Term:
 
 
 def rule_c09_step(prog: Program, col: Collector) -> None:
+    _COL.append(col)
     col.rule("Y1", "step reveals full_game's value of explorable_coalitions[action] for that same coalition; info reports its id; returns (state, reward, done, False, info)", 5)
     ref = _method(prog, GYM, "step")
     ft = fterms(prog, ref)
@@ -100,6 +112,7 @@ def rule_c09_step(prog: Program, col: Collector) -> None:
 
 
 def rule_c09_spaces(prog: Program, col: Collector) -> None:
+    _COL.append(col)
     col.rule("Y2", "mask, state, action lookup, observation and action space all range over the one list explorable_coalitions", 5)
     EX = A("explorable_coalitions")
     ref = _method(prog, GYM, "action_masks")
@@ -180,6 +193,7 @@ def rule_c09_spaces(prog: Program, col: Collector) -> None:
 
 
 def rule_c09_reset(prog: Program, col: Collector) -> None:
+    _COL.append(col)
     col.rule("Y3", "reset: new hidden game from the generator; normalised game is a normalised COPY of it; knowledge reset to the minimal information with paired values; step counter zeroed", 6)
     ref = _method(prog, GYM, "reset")
     ft = fterms(prog, ref)
@@ -237,6 +251,7 @@ def _atoms_or(t: Term) -> list[Term]:
 
 
 def rule_c09_done(prog: Program, col: Collector) -> None:
+    _COL.append(col)
     col.rule("D1", "done = (budget used up) or (nothing left to reveal) or (all intervals degenerate): exactly these three disjuncts", 3)
     ref = _method(prog, GYM, "done")
     ft = fterms(prog, ref)
@@ -297,6 +312,7 @@ def rule_c09_done(prog: Program, col: Collector) -> None:
 
 
 def rule_h3_undo(prog: Program, col: Collector) -> None:
+    _COL.append(col)
     col.rule("H3", "unstep is the statement-wise inverse of step: unreveal the same explorable_coalitions[action], recompute, steps_taken -= 1", 4)
     sref, uref = _method(prog, GYM, "step"), _method(prog, GYM, "unstep")
     sft, uft = fterms(prog, sref), fterms(prog, uref)
@@ -327,6 +343,7 @@ def rule_h3_undo(prog: Program, col: Collector) -> None:
 # --------------------------------------------------------------------------------------
 
 def rule_c16(prog: Program, col: Collector) -> None:
+    _COL.append(col)
     IN = A("icg_gym")
 
     def agg(x: Term) -> Term:
